@@ -89,11 +89,10 @@ func TestStoreSpecial(t *testing.T) {
 }
 
 type autoClient struct {
-	mu   sync.Mutex
-	reqs []int64
-	t0   time.Time
-	slow map[int]time.Duration // poll index -> extra latency
-	n    int
+	mu      sync.Mutex
+	reqs    []int64
+	t0      time.Time
+	latency time.Duration // how long the service takes to answer a poll request (virtual time)
 }
 
 func (c *autoClient) Get(ctx context.Context, name string) (*api.SecretValue, error) {
@@ -103,6 +102,14 @@ func (c *autoClient) GetIfChanged(ctx context.Context, name string, old api.Secr
 	c.mu.Lock()
 	c.reqs = append(c.reqs, time.Since(c.t0).Milliseconds())
 	c.mu.Unlock()
+	if c.latency > 0 {
+		// a slow service must not stretch the period: the next poll is due one period after the last one STARTED
+		select {
+		case <-ctx.Done():
+			return nil, ctx.Err()
+		case <-time.After(c.latency):
+		}
+	}
 	return nil, api.ErrValueNotChanged
 }
 
@@ -125,6 +132,9 @@ func TestCadence(t *testing.T) {
 			synctest.Test(t, func(t *testing.T) {
 				_ = seed
 				c := &autoClient{t0: time.Now()}
+				if rep%2 == 1 {
+					c.latency = eff / time.Duration(5+rep)
+				}
 				st, err := setec.NewStore(context.Background(), setec.StoreConfig{Client: c, Secrets: []string{"a"}, PollInterval: cfgInterval, Logf: func(string, ...any) {}})
 				if err != nil {
 					t.Fatal(err)
